@@ -335,7 +335,7 @@ func (c *Conn) Read(b []byte) (int, error) {
 			_, inner, err := c.handleClientHello(r, true)
 			if err != nil {
 				c.readErr = err
-				convertErrorsToAlerts(c, err)
+				convertErrorsToAlerts(c.Conn, err)
 				return 0, err
 			}
 			r, c.readErr = inner.Marshal()
